@@ -122,8 +122,9 @@ def ref_gaussian(mean, cov_matrix, y):
     return np.atleast_1d(multivariate_normal(mean=mean, cov=cov_matrix, allow_singular=False).logpdf(y))
 
 
-def ref_gaussian_eig(mean, q, ev, y):
-    """-D/2 log 2pi - 1/2 sum log ev - 1/2 sum (q_i^T d)^2 / ev_i from the generating eigen-decomposition"""
+def ref_gaussian_eig(mean, cov_matrix, y):
+    """-D/2 log 2pi - 1/2 sum log ev - 1/2 sum (q_i^T d)^2 / ev_i from a symmetric eigen-decomposition"""
+    ev, q = np.linalg.eigh(cov_matrix)
     d = (y - mean) @ q
     D = mean.shape[-1]
     return -0.5 * D * np.log(2 * np.pi) - 0.5 * np.sum(np.log(ev)) - 0.5 * np.sum(d * d / ev, axis=-1)
@@ -139,7 +140,9 @@ def ref_cgauss(cov, y):
     return np.atleast_1d(multivariate_normal(mean=np.zeros(c2.shape[0]), cov=c2, allow_singular=False).logpdf(y2))
 
 
-def ref_cgauss_eig(q, ev, y):
+def ref_cgauss_eig(cov, y):
+    """-D log pi - sum log ev - sum |q_i^H y|^2 / ev_i from a Hermitian eigen-decomposition"""
+    ev, q = np.linalg.eigh(cov)
     d = y @ q.conj()
     D = y.shape[-1]
     return -D * np.log(np.pi) - np.sum(np.log(ev)) - np.sum(np.abs(d) ** 2 / ev, axis=-1)
